@@ -178,6 +178,7 @@ func run(c *hc.Ctx) {
 		runHeap(c)
 		runCmp(c)
 	})
+	c.WithStream("c01-split", func() { runSplit(c) })
 	if len(c.Fails) > failsBefore {
 		// a sweep running on a broken status tree / event queue / comparator need not terminate:
 		// the failures above already decide the check
@@ -313,4 +314,78 @@ func run(c *hc.Ctx) {
 			_ = math.Abs
 		}
 	}
+
+	// 3. bulk class: one or two non-degenerate triangles per operand on a 4x4 integer grid. Shared
+	//    edges, vertices on edges and crossings at inexact points are the rule here, every call is
+	//    cheap, and the library handles the whole class correctly (no recorded defect applies: the
+	//    kinds carry the suffix +small-grid and match no known finding). The float winding number is
+	//    exact for the integer operands and only pre-selects: every suspected case, and a random 2%,
+	//    goes to the exact Lean specification, which decides.
+	c.WithStream("c01-small-grid", func() {
+		tri := func(p *canvas.Path) {
+			for {
+				a := hc.P2{X: float64(c.Intn(4)), Y: float64(c.Intn(4))}
+				b := hc.P2{X: float64(c.Intn(4)), Y: float64(c.Intn(4))}
+				d := hc.P2{X: float64(c.Intn(4)), Y: float64(c.Intn(4))}
+				if b.Sub(a).Cross(d.Sub(a)) == 0 {
+					continue
+				}
+				p.MoveTo(a.X, a.Y)
+				p.LineTo(b.X, b.Y)
+				p.LineTo(d.X, d.Y)
+				p.Close()
+				return
+			}
+		}
+		ops := []string{"and", "or", "xor", "not"}
+		for it := 0; it < c.N*60; it++ {
+			P, Q := &canvas.Path{}, &canvas.Path{}
+			tri(P)
+			if c.Chance(0.4) {
+				tri(P)
+			}
+			tri(Q)
+			if c.Chance(0.4) {
+				tri(Q)
+			}
+			op := ops[c.Intn(len(ops))]
+			cp, _ := hc.Contours(P)
+			cq, _ := hc.Contours(Q)
+			sg := "+small-grid"
+			if hc.OverlappingEdges(cp, cq) {
+				sg = "+overlapping-edges" // collinearly overlapping edges: the recorded defects apply
+			}
+			c.Evals++
+			var R *canvas.Path
+			if msg := hc.Try(func() { R = apply(op, P.Copy(), Q.Copy()) }); msg != "" {
+				first := strings.SplitN(msg, "\n", 2)[0]
+				c.Fail("panic:"+op+":"+first+sg, op+" panicked: "+first, map[string]any{"op": op, "P": P.String(), "Q": Q.String()})
+				continue
+			}
+			cr, ok := hc.Contours(R)
+			if !ok {
+				c.Fail("result-not-flat:"+op+sg, "result is not a flat well-formed path", map[string]any{"op": op, "P": P.String(), "Q": Q.String(), "R": R.String()})
+				continue
+			}
+			pts := c.SamplePoints(24, cp, cq, cr)
+			suspect := false
+			for _, pt := range pts {
+				if hc.DistToContours(pt, cp) < 4*delta || hc.DistToContours(pt, cq) < 4*delta || hc.DistToContours(pt, cr) < 4*delta {
+					continue
+				}
+				if regionOp(op, hc.WnFloat(pt, cp) != 0, hc.WnFloat(pt, cq) != 0) != (hc.WnFloat(pt, cr) != 0) {
+					suspect = true
+					break
+				}
+			}
+			c.Count("small-grid:" + op + sg)
+			if suspect || c.Chance(0.02) {
+				line := fmt.Sprintf("REGION bool %s %s P %s Q %s R %s PTS %s", op, hc.H(delta), hc.PolyTokens(cp), hc.PolyTokens(cq), hc.PolyTokens(cr), hc.PtsTokens(pts))
+				c.Case(line, "!", "region:"+op+" "+sg)
+				if suspect {
+					c.Count("small-grid:suspected-by-float-oracle")
+				}
+			}
+		}
+	})
 }
